@@ -89,8 +89,11 @@ class VFModel(Model):
 class GaussUniform(VFModel):
     """Unit Gaussian likelihood centred at `mu`, uniform prior on a box."""
 
-    def __init__(self, dims=2, lo=-5.0, hi=5.0, mu=0.0, names=None):
+    def __init__(self, dims=2, lo=-5.0, hi=5.0, mu=0.0, names=None,
+                 offset=0.0):
         self._init_common()
+        # constant added to the log-likelihood (an unnormalised likelihood)
+        self.offset = float(offset)
         self.names = names or [f"x{i}" for i in range(dims)]
         lo = np.broadcast_to(np.asarray(lo, float), (dims,))
         hi = np.broadcast_to(np.asarray(hi, float), (dims,))
@@ -116,7 +119,7 @@ class GaussUniform(VFModel):
             d = x[n] - m
             t = d * d
             s = t if s is None else s + t
-        return self._norm - 0.5 * s
+        return (self._norm - 0.5 * s) + self.offset
 
     def to_unit_hypercube(self, x):
         out = x.copy()
@@ -136,7 +139,7 @@ class GaussUniform(VFModel):
         z = 0.0
         for a, b, m, w in zip(self._lo, self._hi, self.mu, self._w):
             z += math.log(ndtr(b - m) - ndtr(a - m)) - math.log(w)
-        return z
+        return z + self.offset
 
     def posterior_moments(self):
         means, variances = [], []
